@@ -8,6 +8,7 @@ def extend(table):
     table["C10"] = table["C10"] + [fsm.prop_generic]
     table["C14"] = [wide.run]
     table["C12"] = [fsm.prop_generic, wide.run]
+    table["C13"] = table["C13"] + [wide.run]
     table["C16"] = [fsm.prop_c16]
     table["C17"] = [fsm.prop_c17]
     table["C18"] = [fsm.prop_c18]
